@@ -350,7 +350,8 @@ factor lists (`Ops/KruskalSeq.lean`), a re-parameterising call (`normalize` with
 `arrange`, `fixsigns` with or without a reference, `redistribute`) replaces its receiver by a
 tensor of the same rank and shape denoting the same array — wherever in the sequence it
 happens, whatever produced the receiver (`update` from a shared vector, `from_vector`,
-`extract`, `+`, …). -/
+`extract`, `copy`, `+`, `-`, unary `-` / `+`, scalar `*` on either side, `permute`, `symmetrize`,
+the constructor applied to a returned factor list or to another tensor's arrays, …). -/
 theorem C08_seq_inplace {S : Services α} (hS : S.Lawful) (E E' : Env α) (op : SeqOp) (k : Nat)
     (hr : op.isReparam = true) (ht : op.target = some k) (h : runStep S E op = .ok E') :
     ∃ K K', E.ks[k]? = some K ∧ E'.ks[k]? = some K' ∧ K'.ncomp = K.ncomp ∧ K'.shape = K.shape ∧
@@ -358,7 +359,9 @@ theorem C08_seq_inplace {S : Services α} (hS : S.Lawful) (E E' : Env α) (op : 
   obtain ⟨K, K', h1, h2, r⟩ := runStep_reparam hS E E' op k hr ht h
   exact ⟨K, K', h1, h2, r.ncomp, r.shape, r.get⟩
 
-/-- Frame: every call changes at most the slot of its receiver; every other live tensor, every
+/-- Frame, for all twenty kinds of step (six in place, fourteen creating — every `ktensor`
+operation that returns a Kruskal tensor, vector or factor list): every call changes at most the
+slot of its receiver; every other live tensor, every
 live vector (the data vector of `update` included) and every live factor list keeps its value,
 new objects are appended.  This is the value-level statement; that the real objects share no
 storage, so that NumPy's in-place writes cannot reach them, is `C05_inplace_only_ktensor` /
